@@ -197,11 +197,17 @@ class Check(BaseCheck):
                         fails.append(core.Failure("correspondence", "FreeSurfer reader vs model", "%s %s: impl %s model %s" % (fc["name"], what, a[:2], b[:2]), dict(kind="fs")))
                         break
             # foreign files
+            def numeric(l):
+                return bool(l.strip()) and (l.strip()[0].isdigit() or l.strip()[0] in "-+.")
+            white = [("as-is", lambda l: l), ("tabs", lambda l: l.replace(" ", "\t") if numeric(l) else l), ("crlf", lambda l: l + "\r"),
+                     ("indented", lambda l: "  " + l if numeric(l) else l), ("trailing-blanks", lambda l: l + "   "), ("double-blanks", lambda l: l.replace(" ", "  ") if numeric(l) else l)]
             for kind, lines, nm in foreign_files(rng):
-                a = lapy_read(kind, lines, tmp, ".msh" if kind == "gmsh" else (".off" if kind == "off" else ".vtk")); b = model_read(drv, kind, lines)
-                stats.case("foreign" + nm, cls="foreign:" + nm)
-                if not same_mesh(a, b):
-                    fails.append(core.Failure("correspondence", "foreign file reader vs model", "%s: impl %s model %s" % (nm, a[0], str(b)[:80]), dict(kind=kind, lines=lines, name=nm)))
+                for wname, tr in white:          # the same file with other (legal) white space in its numeric rows / line ends
+                    ls = [tr(l) for l in lines]
+                    a = lapy_read(kind, ls, tmp, ".msh" if kind == "gmsh" else (".off" if kind == "off" else ".vtk")); b = model_read(drv, kind, ls)
+                    stats.case("foreign" + nm + wname, cls=["foreign:" + nm, "whitespace:" + wname])
+                    if not same_mesh(a, b):
+                        fails.append(core.Failure("correspondence", "foreign file reader vs model", "%s (%s): impl %s model %s" % (nm, wname, a[0], str(b)[:80]), dict(kind=kind, lines=ls, name=nm)))
             # ev files
             for d in ev_cases(rng, 8 if self.quick else 80):
                 p = tmp.path("a.ev")
@@ -431,10 +437,13 @@ def foreign_files(rng):
 
 
 def ev_cases(rng, n):
-    keys = [("Creator", "tool x"), ("File", "a/b.vtk"), ("User", "me"), ("Refine", 0), ("Degree", 1), ("Dimension", 2), ("Elements", 20), ("DoF", 12),
+    texts = [("tool x", "a/b.vtk", "me"), ("LaPy: ShapeDNA 1.2", "C:\\data\\lh.white.vtk", "dzne:builder"), ("x = y # z", "cluster:/scratch/lh.pial", "a;b,c"),
+             ("12:30:05", "f {1} (2)", "u")]
+    keys = [("Creator", None), ("File", None), ("User", None), ("Refine", 0), ("Degree", 1), ("Dimension", 2), ("Elements", 20), ("DoF", 12),
             ("NumEW", 3), ("Area", 12.566), ("Volume", 4.18879), ("BLength", 0.0), ("EulerChar", 2), ("TimePre", 3), ("TimeCalcAB", 5), ("TimeCalcEW", 7)]
     for i in range(n):
-        d = {k: v for k, v in keys if rng.random() < 0.6}
+        txt = dict(zip(("Creator", "File", "User"), texts[i % len(texts)]))          # header strings with ':', '=', '#', ';', brackets
+        d = {k: (txt[k] if v is None else v) for k, v in keys if rng.random() < 0.6}
         k = [1, 1, 2, 3, 5][i % 5]
         nrow = [1, 4, 6, 1, 3][(i // 2) % 5]
         dt = np.float32 if i % 3 == 0 else np.float64
